@@ -291,7 +291,7 @@ pub fn run(ctx: &Ctx) -> Report {
          non-trivial = the filters changed the document and a cut falls inside the first 10 or the last 8 bytes of the compressed stream; distinct by case hash",
     );
     rep.assume("flate2 and brotli (independent decoder instances) judge stream validity (trusted); while known finding D7 is listed for this property, comments / CDATA / raw-text elements are generated without markup inside (the decoder re-chunks the plain text at boundaries the harness cannot steer, so the D7 zones cannot be avoided by choosing cuts)");
-    rep.add(run_part(ctx, "streams", ctx.cases(3_000, 100_000), strategy, check, &[]));
+    rep.add(run_part(ctx, "streams", ctx.cases(10_000, 300_000), strategy, check, &[]));
     rep
 }
 
